@@ -251,6 +251,16 @@ const FLOODS: &[&str] = &[
     "\"abc\" >bitstr open-bitstr u8 u8 u8",
 ];
 
+/// every "%" these sources print costs one `print` instruction of its own - also when the source is rejected afterwards
+const MARKERS: &[&str] = &[
+    "#( \"%\" print #) ]",
+    "#( \"%\" print \"%\" print #) foo_unknown",
+    "\"%\" print",
+    "#( \"%\" print #)",
+    ": pm \"%\" print ; #( pm pm #) then",
+    "\"%\" print 1 0 /",
+];
+
 /// xv limits-record <trace> <side> <seed> <n> <budget>
 pub fn cmd_record(args: &[String]) -> i32 {
     let seed: u64 = args[2].parse().unwrap_or(1);
@@ -273,19 +283,25 @@ pub fn cmd_record(args: &[String]) -> i32 {
         let mut srcs = vec![];
         let rounds = 1 + rng.below(3);
         let mut panicked = false;
-        for _ in 0..rounds {
-            // limits changed between evaluations
+        let rounds = if rng.chance(1, 5) { 4 + rng.below(10) } else { rounds };
+        let marker_run = rounds >= 4;       // many short evaluations of a source that prints one "%" per instruction
+        for round in 0..rounds {
+            // limits changed between evaluations; now and then only the stack / heap limit (the instruction budget goes on)
             let nlim = rng.below(70) as i64;
             let slim = if rng.chance(1, 4) { -1 } else { rng.below(14) as i64 };
             let hlim = if rng.chance(1, 3) { -1 } else { rng.below(4) as i64 };
-            xs.set_insn_limit(Some(nlim as usize)).unwrap();
+            let keep = round > 0 && (marker_run || rng.chance(1, 2));
+            if !keep { xs.set_insn_limit(Some(nlim as usize)).unwrap(); }
             xs.set_stack_limit(if slim < 0 { None } else { Some(slim as usize) }).unwrap();
             xs.set_heap_limit(if hlim < 0 { None } else { Some((hlim + base) as usize) }).unwrap();
             let d0 = xs.verif_dump();
-            trace.push_str(&json!({"run": run, "ev": "setlimit", "n": nlim, "s": slim, "h": hlim,
-                                   "ds": d0.data_stack.len(), "heap": d0.heap.len() as i64 - base}).to_string());
+            let mut ev = json!({"run": run, "ev": "setlimit", "n": nlim, "s": slim, "h": hlim,
+                                "ds": d0.data_stack.len(), "heap": d0.heap.len() as i64 - base});
+            if keep { ev["keepmeter"] = json!(1); }
+            trace.push_str(&ev.to_string());
             trace.push('\n');
-            let src = if rng.chance(1, 2) { FLOODS[rng.below(FLOODS.len())].to_string() } else { let b = 6 + g.rng.below(budget); g.program(b) };
+            let src = if marker_run { MARKERS[rng.below(MARKERS.len())].to_string() }
+                      else if rng.chance(1, 2) { FLOODS[rng.below(FLOODS.len())].to_string() } else { let b = 6 + g.rng.below(budget); g.program(b) };
             srcs.push(src.clone());
             let stepwise = rng.chance(2, 3);
             let r = guarded(|| {
@@ -295,16 +311,19 @@ pub fn cmd_record(args: &[String]) -> i32 {
                     let d = xs.verif_dump();
                     (d.data_stack.len() as i64, d.heap.len() as i64 - base)
                 };
+                let marks = |xs: &mut Xstate| xs.read_stdout().unwrap_or_default().matches('%').count();
                 if stepwise {
                     let c = xs.compile(&src);
                     let (ds, hp) = snap(&xs);
-                    evs.push(json!({"run": run, "ev": "call", "ok": if c.is_ok() {1} else {0}, "ds": ds, "heap": hp}));
+                    let mk = marks(&mut xs);
+                    evs.push(json!({"run": run, "ev": "call", "ok": if c.is_ok() {1} else {0}, "ds": ds, "heap": hp, "marks": mk}));
                     if c.is_ok() {
                         let mut k = 0;
                         while xs.is_running() && k < 300 {
                             let r = xs.next();
                             let (ds, hp) = snap(&xs);
-                            evs.push(json!({"run": run, "ev": "step", "ok": if r.is_ok() {1} else {0}, "ds": ds, "heap": hp}));
+                            let mk = marks(&mut xs);
+                            evs.push(json!({"run": run, "ev": "step", "ok": if r.is_ok() {1} else {0}, "ds": ds, "heap": hp, "marks": mk}));
                             k += 1;
                             if let Err(e) = r {
                                 lim_err = err_class(&e) == "Limit";
@@ -318,7 +337,8 @@ pub fn cmd_record(args: &[String]) -> i32 {
                     if let Err(e) = &r {
                         lim_err = err_class(e) == "Limit";
                     }
-                    evs.push(json!({"run": run, "ev": "call", "ok": if r.is_ok() {1} else {0}, "ds": ds, "heap": hp}));
+                    let mk = marks(&mut xs);
+                    evs.push(json!({"run": run, "ev": "call", "ok": if r.is_ok() {1} else {0}, "ds": ds, "heap": hp, "marks": mk}));
                 }
                 (evs, lim_err)
             });
